@@ -52,15 +52,14 @@ structure Node where
 /-- The k-th node must be module k (`Graph.wellFormed`). -/
 abbrev Graph := List Node
 
-/-- A module object in `sys.modules`: the bit set of the names bound so far, and whether its body has finished. -/
-structure ModState where
-  defined : Nat
-  done : Bool
-  deriving DecidableEq, Repr
-
-/-- `sys.modules`: slot k is module k of the graph (`none` = not imported yet). -/
+/-- `sys.modules` as bit sets. Module k of the graph is bit k of `present` (it is in `sys.modules`) and of
+`done` (its body has finished); name n is bound in module k iff bit `k * width + n` of `defined` is set.
+`width` is fixed when the interpreter starts and must exceed every name id. -/
 structure Interp where
-  mods : List (Option ModState)
+  width : Nat
+  present : Nat
+  done : Nat
+  defined : Nat
   deriving DecidableEq, Repr
 
 inductive ImportErr where
@@ -76,8 +75,18 @@ inductive ImportErr where
 
 deriving instance DecidableEq for Except
 
+/-- Evaluate the number before going on (keeps kernel evaluation from piling up suspended updates);
+logically the identity: `strict n k = k n`. -/
+def strict {α : Type} (n : Nat) (k : Nat → α) : α :=
+  match n with
+  | 0 => k 0
+  | m + 1 => k (m + 1)
+
+@[simp] theorem strict_eq {α : Type} (n : Nat) (k : Nat → α) : strict n k = k n := by
+  cases n <;> rfl
+
 /-- A fresh interpreter: nothing imported. -/
-def Interp.empty (g : Graph) : Interp := ⟨g.map fun _ => none⟩
+def Interp.empty (width : Nat) : Interp := ⟨width, 0, 0, 0⟩
 
 def Graph.node? (g : Graph) (m : Name) : Option Node := g[m]?
 
@@ -85,31 +94,38 @@ def Graph.node? (g : Graph) (m : Name) : Option Node := g[m]?
 def Graph.sub? (g : Graph) (parent leaf : Name) : Option Node :=
   g.find? (fun n => n.parent == some parent && n.leaf == leaf)
 
-/-- Node k is module k, and parents come before their children. -/
-def Graph.wellFormed (g : Graph) : Bool :=
-  (g.zipIdx.all fun p => p.1.name == p.2 && (match p.1.parent with | none => true | some q => q < p.2))
+/-- Node k is module k, parents come before their children, and every name id occurring in the graph is
+below `width`. -/
+def Graph.wellFormed (g : Graph) (width : Nat) : Bool :=
+  g.zipIdx.all fun p =>
+    p.1.name == p.2 && p.1.leaf < width &&
+    (match p.1.parent with | none => true | some q => q < p.2) &&
+    p.1.events.all fun e =>
+      match e with
+      | .importMod m => m < width
+      | .fromImport m n | .useAttr m n _ => m < width && n < width
+      | .define n => n < width
+      | .unknown _ => true
 
-def Interp.get (st : Interp) (m : Name) : Option ModState := (st.mods[m]?).join
+/-- Module `m` is in `sys.modules` (possibly partially initialised). -/
+def Interp.has (st : Interp) (m : Name) : Bool := st.present.testBit m
 
-def Interp.has (st : Interp) (m : Name) : Bool := (st.get m).isSome
+def Interp.isDone (st : Interp) (m : Name) : Bool := st.done.testBit m
 
-def Interp.set (st : Interp) (m : Name) (s : ModState) : Interp := ⟨st.mods.set m (some s)⟩
-
-def hasName (s : ModState) (n : Name) : Bool := s.defined.testBit n
+/-- Name `n` is bound in module `m`. -/
+def Interp.hasName (st : Interp) (m n : Name) : Bool :=
+  decide (n < st.width) && st.defined.testBit (m * st.width + n)
 
 /-- A fresh, empty, not yet initialised module object is put into `sys.modules`. -/
-def Interp.insert (st : Interp) (m : Name) : Interp := st.set m ⟨0, false⟩
+def Interp.insert (st : Interp) (m : Name) : Interp :=
+  strict (st.present ||| (1 <<< m)) fun p => { st with present := p }
 
-/-- Bind `n` in module `m` (no effect when `m` is not in `sys.modules`, e.g. `__main__`). -/
+/-- Bind `n` in module `m`. -/
 def Interp.defineIn (st : Interp) (m n : Name) : Interp :=
-  match st.get m with
-  | some s => st.set m ⟨s.defined ||| (1 <<< n), s.done⟩
-  | none => st
+  strict (st.defined ||| (1 <<< (m * st.width + n))) fun d => { st with defined := d }
 
 def Interp.markDone (st : Interp) (m : Name) : Interp :=
-  match st.get m with
-  | some s => st.set m ⟨s.defined, true⟩
-  | none => st
+  strict (st.done ||| (1 <<< m)) fun d => { st with done := d }
 
 /-- One event of the body of module `cur` (`none`: the statement is typed into `__main__`); `imp` is the
 import statement's implementation. -/
@@ -120,22 +136,19 @@ def execEvent (g : Graph) (imp : Interp → Name → Except ImportErr Interp) (c
     match g.node? m with
     | none => .ok st
     | some _ =>
-      match st.get m with
-      | none => .error (.notImported m)
-      | some ms =>
-        if hasName ms n then .ok st
-        else match g.sub? m n with
-          -- `_handle_fromlist` imports the submodule; IMPORT_FROM then finds it in `sys.modules`
-          -- even when it is only partially initialised
-          | some sub => imp st sub.name
-          | none => .error (.cannotImportName m n)
+      if !st.has m then .error (.notImported m)
+      else if st.hasName m n then .ok st
+      else match g.sub? m n with
+        -- `_handle_fromlist` imports the submodule; IMPORT_FROM then finds it in `sys.modules`
+        -- even when it is only partially initialised
+        | some sub => imp st sub.name
+        | none => .error (.cannotImportName m n)
   | .useAttr m n _ =>
     match g.node? m with
     | none => .ok st
     | some _ =>
-      match st.get m with
-      | none => .error (.notImported m)
-      | some ms => if hasName ms n then .ok st else .error (.attributeError m n)
+      if !st.has m then .error (.notImported m)
+      else if st.hasName m n then .ok st else .error (.attributeError m n)
   | .define n => .ok (match cur with | some c => st.defineIn c n | none => st)
   | .unknown w => .error (.untranslated w)
 
@@ -235,11 +248,10 @@ def run (g : Graph) (ids : EntryIds) : Interp → List EntryPoint → Except Imp
     | .error x => .error x
 
 /-- Every module that is in `sys.modules` is fully initialised. -/
-def Interp.allDone (st : Interp) : Bool :=
-  st.mods.all fun o => match o with | some s => s.done | none => true
+def Interp.allDone (st : Interp) : Bool := st.present == st.done
 
-/-- Number of modules in `sys.modules`. -/
-def Interp.count (st : Interp) : Nat := (st.mods.filter Option.isSome).length
+/-- The modules in `sys.modules`. -/
+def Interp.loaded (g : Graph) (st : Interp) : List Name := (List.range g.length).filter st.has
 
 def isOk {ε α : Type} : Except ε α → Bool
   | .ok _ => true
@@ -260,11 +272,8 @@ def ImportErr.render (names : List String) : ImportErr → String
   | .outOfFuel => "out of fuel"
 
 /-- The modules in `sys.modules` with the names bound in each (as text), for the harness. -/
-def Interp.render (names : List String) (st : Interp) : List (String × Bool × List String) :=
-  st.mods.zipIdx.filterMap fun p =>
-    match p.1 with
-    | none => none
-    | some s => some (nameOf names p.2, s.done,
-        ((List.range names.length).filter fun n => hasName s n).map (nameOf names))
+def Interp.render (g : Graph) (names : List String) (st : Interp) : List (String × Bool × List String) :=
+  (st.loaded g).map fun m =>
+    (nameOf names m, st.isDone m, ((List.range names.length).filter (st.hasName m)).map (nameOf names))
 
 end SoupVerif.Imports
